@@ -89,10 +89,12 @@ pub fn run(run: &'static Run) {
     // plain values (harmless), and special values: each of LF, NUL, CR alone, first, in the middle and LAST
     let plain: Vec<&[u8]> = if quick { vec![b"a"] } else { vec![b"a", b"a=b", b""] };
     let mut special: Vec<&[u8]> = vec![b"\n", b"\na", b"a\nb", b"a\n", b"\0", b"\0a", b"a\0b", b"a\0", b"\r", b"\ra", b"a\rb", b"a\r"];
+    // whitespace alone, leading and trailing (blank, TAB, form feed, NBSP): valid values that must come back byte for byte
+    special.extend([&b" "[..], b"\t", b"\x0c", "\u{a0}".as_bytes(), b"a ", b" a", b"a\t", "a\u{a0}".as_bytes(), b"a \t"]);
     if quick {
         special.extend([&b"a=b"[..], b""]);
     } else {
-        special.extend([&b"="[..], "é".as_bytes(), b" ", b"\r\n", b"a\r\n", b"\n\n", b"a\nhost=x"]);
+        special.extend([&b"="[..], "é".as_bytes(), b"\r\n", b"a\r\n", b"\n\n", b"a\nhost=x"]);
     }
     // path and url are byte strings: a non-UTF-8 byte alone and together with each separator (validation must look at the bytes)
     let mut special_bytes = special.clone();
